@@ -4,7 +4,7 @@
 cd "$(dirname "$0")/.."
 out=0
 for d in seeded/*/; do
-  id=$(basename "$d"); prop=${id:0:3}
+  id=$(basename "$d"); prop=$(python3 -c "import json,sys;print(json.load(open(sys.argv[1])).get('check_property') or sys.argv[2][:3])" "$d/meta.json" "$id")
   wt=/tmp/seedreg_$id
   git -C /repo worktree remove --force "$wt" >/dev/null 2>&1
   git -C /repo worktree add -f --detach "$wt" HEAD >/dev/null 2>&1
